@@ -89,7 +89,8 @@ class Crafter:
 
 def classes_for(focus):
     c01 = ["valid", "valid_multi", "missing_output", "spent_on_branch", "other_fork_output", "dup_ref_in_tx",
-           "dup_ref_across_txs", "null_ref", "wrong_key_sig", "outputs_edited", "refs_edited", "placeholder_sig",
+           "dup_ref_across_txs", "null_ref", "wrong_key_sig", "wrong_key_sig_first_of_two", "wrong_key_sig_last_of_two",
+           "outputs_edited", "refs_edited", "placeholder_sig",
            "coinbasedata_sig", "bad_curve_point", "intra_block_spend", "dup_tx"]
     c02 = ["valid", "valid_multi", "reward_plus1", "reward_exact_fees", "reward_minus1", "fees_wrong_state",
            "reward_split_exact", "reward_split_plus1", "reward_split_big",
@@ -182,6 +183,19 @@ def make_candidate(cr, klass, parent_hash, now_holder):
         r, o = rng.choice(sp)
         owner = keys.index_of(o.public_key.public_key)
         bad = chain.make_tx(keys, utxo, [r], [(o.value, 0)], signer_override={0: (owner + 1) % len(keys.pks)})
+        return cr.craft(parent_hash, others=[bad]), now
+    if klass in ("wrong_key_sig_first_of_two", "wrong_key_sig_last_of_two"):
+        sp = t.spendable(parent_hash)
+        if len(sp) < 2:
+            return None
+        rng.shuffle(sp)
+        (r1, o1), (r2, o2) = sp[0], sp[1]
+        which = 0 if klass == "wrong_key_sig_first_of_two" else 1
+        victim = (o1, o2)[which]
+        owner = keys.index_of(victim.public_key.public_key)
+        other = keys.index_of((o1, o2)[1 - which].public_key.public_key)
+        thief = other if other != owner else (owner + 1) % len(keys.pks)
+        bad = chain.make_tx(keys, utxo, [r1, r2], [(o1.value + o2.value, thief)], signer_override={which: thief})
         return cr.craft(parent_hash, others=[bad]), now
     if klass == "outputs_edited":
         tx = one_tx()
@@ -536,6 +550,22 @@ def run_ledger(ctx, focus, res=None):
                                    [(o.value - 5, 0), (5, b"\x05" * 64)])
                 tree.extend(txs=[tx])
         tree.grow(rng.randrange(4, 10), fork_prob=0.4)
+        if cfg == 1:
+            # a side branch that diverges before the start of a retarget period and runs up to the next boundary, with
+            # timestamps that differ from the main chain's: the boundary block on the branch that is not the head must
+            # get the target prescribed by its own ancestors
+            base = tree.blocks[min(2, len(tree.blocks) - 1)]
+            mainh = tree.cs.head().height
+            I = consensus.BLOCKS_BETWEEN_TARGET_READJUSTMENT
+            goal = ((base.height // I) + 2) * I - 1          # last block before a boundary, a full period past the fork
+            while tree.cs.head().height < goal + 2:
+                tree.extend(n_tx=0, dt=rng.randrange(100, 140))
+            h = base.hash()
+            for _ in range(goal - base.height):
+                h = tree.extend(h, n_tx=0, dt=rng.randrange(20, 60)).hash()
+            deep_side_tip = h
+        else:
+            deep_side_tip = None
         res.count("config:%s" % ["production", "retarget-6", "horizon-2"][cfg])
         res.count("blocks_in_trees", len(tree.blocks))
         cr = Crafter(tree)
@@ -556,7 +586,10 @@ def run_ledger(ctx, focus, res=None):
         for k in range(per_tree):
             klass = classes[(k + ti) % len(classes)] if rng.random() < 0.8 else rng.choice(classes)
             parent_hash = rng.choice(tree.blocks[-8:]).hash() if rng.random() < 0.7 else rng.choice(tree.blocks).hash()
-            if klass in ("stale_target", "target_plus1", "target_minus1", "valid") and rng.random() < 0.8:
+            if deep_side_tip is not None and klass in ("stale_target", "target_plus1", "target_minus1", "valid",
+                                                         "valid_multi") and rng.random() < 0.5:
+                parent_hash = deep_side_tip
+            elif klass in ("stale_target", "target_plus1", "target_minus1", "valid") and rng.random() < 0.8:
                 I = consensus.BLOCKS_BETWEEN_TARGET_READJUSTMENT
                 at_boundary = [b for b in tree.blocks if (b.height + 1) % I == 0]
                 if at_boundary:
